@@ -185,6 +185,7 @@ def run(ctx):
     if nflag < 1:
         raise FactError('skoolkit/skoolmacro.py: no bit-tested flag parameter found')
     order_and_alias_rules(ctx, repo)
+    header_order_rule(ctx, repo)
     from sa.rules import C17fold
     C17fold.run(ctx, repo)
     from sa.rules import memo
@@ -264,3 +265,40 @@ def order_and_alias_rules(ctx, repo):
                     ctx.violation('mode field %s' % m2.name, '%s:%d' % (m2.relpath, n.lineno), 'the `mode` field is bound to `%s`, not to a copy of the built-in fields' % ast.unparse(v))
     if not found:
         raise FactError('no construction of the `mode` replacement field found')
+
+
+def header_order_rule(ctx, repo):
+    """C17.9: both writers hand an entry's title (entry.description) to the macro engine before its description paragraphs (entry.details),
+    so that a state-changing macro in the title (#LET, #POKES, #DEF) is seen by the description in ASM and HTML output alike (sibling
+    agreement on an event order; the order itself is the one of the skool file)."""
+    ctx.rule('C17.9-header-order', 'in AsmWriter and HtmlWriter the entry title is expanded before the description paragraphs (first use of entry.description precedes first use of entry.details in the method that handles both)', floor=2)
+    found = 0
+    for modname, clsname in (('skoolasm', 'AsmWriter'), ('skoolhtml', 'HtmlWriter')):
+        mod = repo.mod(modname)
+        for fn in mod.methods(clsname).values() if isinstance(mod.methods(clsname), dict) else mod.methods(clsname):
+            first = {}
+            def is_field(n):
+                return isinstance(n, ast.Attribute) and n.attr in ('description', 'details') and isinstance(n.ctx, ast.Load) and \
+                    ((isinstance(n.value, ast.Name) and n.value.id == 'entry') or (isinstance(n.value, ast.Attribute) and n.value.attr == 'entry'))
+            # a local that merely names the field (x = entry.details) is not a use; its loads are
+            alias = {st.targets[0].id: st.value.attr for st in fn.body
+                     if isinstance(st, ast.Assign) and len(st.targets) == 1 and isinstance(st.targets[0], ast.Name) and is_field(st.value)}
+            for idx, st in enumerate(fn.body):
+                if isinstance(st, ast.Assign) and len(st.targets) == 1 and isinstance(st.targets[0], ast.Name) and is_field(st.value):
+                    continue
+                for n in ast.walk(st):
+                    attr = n.attr if is_field(n) else alias.get(n.id) if isinstance(n, ast.Name) and isinstance(n.ctx, ast.Load) else None
+                    if attr:
+                        key = (idx, n.lineno, n.col_offset)
+                        if attr not in first or key < first[attr]:
+                            first[attr] = key
+            if len(first) < 2:
+                continue
+            found += 1
+            where = 'skoolkit/%s.py:%d' % (modname, fn.lineno)
+            if first['description'] < first['details']:
+                ctx.ok({'method': '%s.%s' % (clsname, fn.name), 'title at line': first['description'][1], 'details at line': first['details'][1]})
+            else:
+                ctx.violation('%s.%s header order' % (clsname, fn.name), where, '%s.%s uses entry.details (line %d) before entry.description (line %d): the description paragraphs are expanded before the title, so a #LET / #POKES / #DEF in the title is not seen by the description here although it is in the other writer (and in the skool file the title comes first)' % (clsname, fn.name, first['details'][1], first['description'][1]))
+    if found < 2:
+        raise FactError('C17.9: the methods that handle entry.description and entry.details were not found in both writers (%d found)' % found)
